@@ -45,18 +45,27 @@ template <integral Int, from_integer_options Options = from_integer_options{}>
     bool isNegative = false;
     if constexpr (is_signed_v<Int>) {
         if (num < 0 and base == 10) {
+            if (length == 0) {
+                return {.end = nullptr, .error = from_integer_error::overflow};
+            }
             isNegative = true;
             str[i++]   = '-';
         }
     }
 
     while (num != 0) {
+        if (length <= i) {
+            return {.end = nullptr, .error = from_integer_error::overflow};
+        }
+
         auto const [quot, rem] = etl::idiv(num, static_cast<Int>(base));
         auto const digit       = static_cast<char>(etl::abs(rem));
 
         str[i++] = (digit > 9) ? (digit - 10) + 'a' : digit + '0';
         num      = quot;
+    }
 
+    if constexpr (Options.terminate_with_null) {
         if (length <= i) {
             return {.end = nullptr, .error = from_integer_error::overflow};
         }
